@@ -158,6 +158,40 @@ theorem C07_truthful (look : Look) (extOrder) (hext : ExtOrderOk extOrder) (req 
             · simp only [debugInfoOfFrames, hlast, debugInfoFrom]
               rfl
 
+/-- **The file paths a response reports** (interface to C09, `/source/v1`): for a frame whose lookup yields
+`info`, the reported `file` and `inlines[].file` values are exactly the `to_api_file_path` images of the
+source files the debug info of that lookup names. -/
+theorem C07_reported_files (look : Look) (extOrder) (hext : ExtOrderOk extOrder) (req : Request) (resp : Response)
+    (h : queryApi look extOrder req = .ok resp)
+    (j s i : Nat) (job : Job) (fr : ReqFrame) (rf : RespFrame) (lib : Lib)
+    (hreq : req.frameAt j s i = some (job, fr)) (hresp : resp.frameAt j s i = some rf)
+    (hlib : job.memoryMap[fr.moduleIndex]? = some lib)
+    (f : Nat → Option AddrInfo) (info : AddrInfo) (hl : look lib = .ok f) (hf : f fr.address = some info) :
+    ∃ sym, rf.symbol = some sym ∧
+      ∀ p, p ∈ sym.reportedFiles ↔ ∃ fp ∈ info.filePaths, apiFilePath fp = p := by
+  have ht := C07_truthful look extOrder hext req resp h j s i job fr rf lib hreq hresp hlib
+  rw [hl] at ht
+  simp only [hf] at ht
+  obtain ⟨sym, hs, _, _, hm⟩ := ht
+  have hne : info.frames.resolved ≠ some [] := by
+    intro hres
+    rw [hres] at hm
+    obtain ⟨outer, ho, _⟩ := hm
+    simp at ho
+  rcases queryApi_cases look extOrder hext req with ⟨_, he⟩ | ⟨hv, table, htab, he⟩
+  · rw [he] at h; simp at h
+  · rw [he] at h
+    obtain ⟨_, s2⟩ := createResponse_frames htab hv h
+    obtain ⟨lib', l1, l2⟩ := s2 j s i job fr hreq
+    rw [hlib] at l1
+    simp only [Option.some.injEq] at l1
+    subst l1
+    rw [hresp] at l2
+    simp only [Option.some.injEq] at l2
+    subst l2
+    simp only at hs
+    exact ⟨sym, hs, reportedFiles_directSymbol hl hf hs hne⟩
+
 /-- **Isolation, part 1: a library that cannot be loaded is reported as not found, with its error.**
 If `lib` is in the job's memory map, some frame of the request refers to it, and its load fails with `e`,
 then (the job's memory map having no *other* entry with the same `"name/id"` key) `found_modules` maps its
@@ -321,6 +355,42 @@ theorem C07_address_table (look : Look) (extOrder) (hext : ExtOrderOk extOrder) 
   rw [hl] at h2
   obtain ⟨tbl, rfl, t2, t3⟩ := h2
   exact ⟨tbl, h1, t2, t3⟩
+
+/-- What `addresses.sort_unstable(); addresses.dedup();` (mod.rs:75-76) achieves: the addresses handed to
+`lookup_sync` are strictly increasing (each once) and are exactly the requested ones. -/
+theorem C07_lookup_order (addresses : List Nat) :
+    (dedupAdj (sortNat addresses)).Pairwise (· < ·) ∧
+    ∀ x, x ∈ dedupAdj (sortNat addresses) ↔ x ∈ addresses :=
+  ⟨strictSorted_dedupAdj _ (sorted_sortNat addresses), mem_sortDedup addresses⟩
+
+/-- …and that this is all it achieves: running the lookup passes over **any** list with the same elements
+(unsorted, with repetitions) gives the same load error or a table that answers every `get` identically —
+the response cannot depend on the sort / dedup (they only save repeated lookups). -/
+theorem C07_sort_dedup_unobservable (look : Look) (extOrder) (hext : ExtOrderOk extOrder) (lib : Lib)
+    (addresses addrs' : List Nat) (hsame : ∀ x, x ∈ addrs' ↔ x ∈ addresses) :
+    ∃ r r', symbolicateLib look extOrder lib addresses = .ok r ∧
+      lookupAddresses look extOrder lib addrs' = .ok r' ∧
+      match r, r' with
+      | .error e, .error e' => e = e'
+      | .ok t, .ok t' => ∀ x, btGet t x = btGet t' x
+      | _, _ => False := by
+  obtain ⟨r, h1, h2⟩ := symbolicateLib_spec look extOrder hext lib addresses
+  obtain ⟨r', h1', h2'⟩ := lookupAddresses_spec look extOrder hext lib addrs'
+  refine ⟨r, r', h1, h1', ?_⟩
+  cases hl : look lib with
+  | error e =>
+    rw [hl] at h2 h2'
+    subst h2; subst h2'
+    rfl
+  | ok f =>
+    rw [hl] at h2 h2'
+    obtain ⟨t, rfl, _, t3⟩ := h2
+    obtain ⟨t', rfl, _, t3'⟩ := h2'
+    intro x
+    rw [t3, t3']
+    by_cases hx : x ∈ addresses
+    · rw [if_pos hx, if_pos ((hsame x).mpr hx)]
+    · rw [if_neg hx, if_neg (fun h => hx ((hsame x).mp h))]
 
 /-! ### Non-vacuity
 
